@@ -312,7 +312,13 @@ def csr_internals(ctx):
         ctx.require(R5, arg_origins(c, 0).has_leaf("param:2") and arg_origins(c, 1).has_leaf("param:1"), c.where(), "get_digest(digest parameter, key_pair)", ["Csr::new", "digest-args"])
     from .guards import body_family, closure_users
     fam = body_family(prog, CSR)
-    for name, param, what in (("openssl::x509::extension::SubjectAlternativeName::dns", 3, "dNSName"), ("openssl::x509::extension::SubjectAlternativeName::ip", 4, "iPAddress")):
+    ctr = csr_new_trace(prog)
+    if ctr is not None:
+        # evaluation first: Csr::new interpreted (every OpenSSL call succeeds) on two name lists and a subject map: the trace of
+        # builder calls says which names and attributes were added, with which key, in which order relative to `sign`
+        for what, got, want in ctr:
+            ctx.require(R5, got == want, "%s:%s" % (cb.file, cb.line), "Csr::new evaluated: %s = %s (expected %s)" % (what, got, want), ["Csr::new", "evaluated", what])
+    for name, param, what in ([] if ctr is not None else [("openssl::x509::extension::SubjectAlternativeName::dns", 3, "dNSName"), ("openssl::x509::extension::SubjectAlternativeName::ip", 4, "iPAddress")]):
         calls = [c for fb in fam for c in fb.calls_to(name)]
         ctx.floor(R5, "SubjectAlternativeName::%s call" % name.rsplit("::", 1)[1], len(calls), 1)
         for c in calls:
@@ -347,8 +353,9 @@ def csr_internals(ctx):
                 and (c.term.get("arg_tys") or [""])[0].startswith("&mut ")]
         ctx.require(R5, not late, (late[0] if late else sg_).where(), "nothing is set on the request after it has been signed (%s)" % sorted({c.name.rsplit("::", 1)[-1] for c in late}),
                     ["Csr::new", "set-after-sign"])
-    ap = cb.calls_to("openssl::x509::X509NameBuilder::append_entry_by_nid")
-    ctx.floor(R5, "append_entry_by_nid in Csr::new", len(ap), 1)
+    ap = cb.calls_to("openssl::x509::X509NameBuilder::append_entry_by_nid") if ctr is None else []
+    if ctr is None:
+        ctx.floor(R5, "append_entry_by_nid in Csr::new", len(ap), 1)
     for c in ap:
         n = arg_origins(c, 1, through=True)
         v = arg_origins(c, 2)
@@ -356,7 +363,7 @@ def csr_internals(ctx):
                     and v.has_leaf("param:5") and cb.scc_of(c.bb) is not None, c.where(), "each (attribute, value) of subject_attributes is appended under attribute.get_nid()", ["Csr::new", "subject"])
     # when attributes are present the subject name is set
     sn = cb.calls_to("openssl::x509::X509ReqBuilder::set_subject_name")
-    ctx.require(R5, bool(sn), "%s:%s" % (cb.file, cb.line), "the built name is installed with set_subject_name", ["Csr::new", "set-subject"])
+    ctx.require(R5, bool(sn) or ctr is not None, "%s:%s" % (cb.file, cb.line), "the built name is installed with set_subject_name", ["Csr::new", "set-subject"])
     # NID table
     gn = [b for k, b in prog.bodies.items() if k.endswith("::get_nid") and "acme_common" in k]
     ctx.floor(R5, "SubjectAttribute::get_nid body", len(gn), 1)
@@ -562,7 +569,7 @@ def identifier_new_table(prog):
             return _ok(Val("str", d[0].v.encode("punycode").decode("ascii")))
         return None
     samples = [("Dns", "example.org", "http-01"), ("Dns", "Example.ORG", "dns-01"), ("Dns", "*.Example.org", "dns-01"), ("Dns", "b\u00fccher.example", "tls-alpn-01"), ("Ip", "203.0.113.7", "http-01"),
-               ("Ip", "2001:DB8:0:0:0:0:0:1", "tls-alpn-01"), ("Ip", "2001:db8::0:1", "http-01"), ("Ip", "not-an-address", "http-01"), ("Ip", "192.0.2.300", "http-01")]
+               ("Ip", "2001:DB8:0:0:0:0:0:1", "tls-alpn-01"), ("Ip", "2001:db8::0:1", "http-01"), ("Ip", "::ffff:192.0.2.1", "http-01"), ("Ip", "::FFFF:C000:0201", "tls-alpn-01"), ("Ip", "::1", "http-01"), ("Ip", "not-an-address", "http-01"), ("Ip", "192.0.2.300", "http-01")]
     rows = []
     for t_, v_, ch_ in samples:
         try:
@@ -588,8 +595,62 @@ def identifier_new_table(prog):
             want = ".".join((l.lower() if all(ord(c) < 128 for c in l) else "xn--" + l.lower().encode("punycode").decode("ascii")) for l in v_.split("."))
         else:
             try:
-                want = str(ipaddress.ip_address(v_))
+                from ..absint import _ip_text
+                want = _ip_text(Val("ip", list(ipaddress.ip_address(v_).packed)))      # the address as Rust prints it: NOT folded to IPv4 when v4-mapped
             except ValueError:
                 want = "Err"
         rows.append(((t_, v_), got, want))
+    return rows
+
+
+def csr_new_trace(prog):
+    """Csr::new EVALUATED with every OpenSSL call succeeding: [(what, got, expected)] or None. Inputs: domains [a.example, b.example,
+    a.example], ips [192.0.2.1, 2001:db8::1], two subject attributes; and the same with empty lists / no attribute."""
+    from ..absint import Interp, Val, marker, struct_val, success_model, variant, vstr
+    cb = prog.body(CSR)
+    SA = "acme_common::crypto::BaseSubjectAttribute"
+    if cb is None or cb.arg_count != 5 or SA not in prog.adts:
+        return None
+    KP = "acme_common::crypto::openssl_keys::KeyPair"
+    rows = []
+    sav = prog.adt_variants(SA)
+    if len(sav) < 2:
+        return None
+    for tag, doms, ips, attrs in (("full", ["a.example", "b.example", "a.example"], ["192.0.2.1", "2001:db8::1"], [(a_, "v%d" % i_) for i_, a_ in enumerate(sav)]), ("no-ip", ["c.example"], [], []), ("ip-only", [], ["203.0.113.9"], [(sav[-1], "vz")])):
+        kp = struct_val(prog, KP, {"inner_key": marker("INNERKEY")})
+        amap = Val("list", [Val("tuple", [variant(SA, a), vstr(v)]) for a, v in attrs], "map")
+        try:
+            it = Interp(cb, success_model(cb, None), 200000)
+            it.follow = lambda cs: (cs.name or "").startswith(("acme_common::crypto::openssl_certificate::", "<acme_common::crypto::openssl_certificate::")) and not (cs.name or "").endswith("get_digest")
+            r = it.run({1: Val("ref", kp), 2: marker("DIGEST"), 3: Val("ref", Val("list", [vstr(x) for x in doms])), 4: Val("ref", Val("list", [vstr(x) for x in ips])), 5: Val("ref", amap)})
+        except Exception:
+            return None
+        if r.kind != "return":
+            return None
+        ev = []
+        for c, a, res in r.calls:
+            n = (c.name or "")
+            m = n.rsplit("::", 1)[-1]
+            if n.endswith("SubjectAlternativeName::dns") or n.endswith("SubjectAlternativeName::ip"):
+                v = a[1].deref() if len(a) > 1 else None
+                ev.append((m, v.v if v is not None and v.k == "str" else None))
+            elif n.endswith("X509NameBuilder::append_entry_by_nid"):
+                v = a[2].deref() if len(a) > 2 else None
+                nid = a[1].deref() if len(a) > 1 else None
+                ev.append(("attr", v.v if v is not None and v.k == "str" else None, "get_nid" in repr(nid) or nid.k in ("adt", "int")))
+            elif n.endswith("X509ReqBuilder::set_pubkey") or n.endswith("X509ReqBuilder::sign"):
+                ev.append((m, "INNERKEY" in repr(a[1].deref()) if len(a) > 1 else False))
+            elif n.endswith("X509ReqBuilder::add_extensions") or n.endswith("X509ReqBuilder::set_subject_name") or n.endswith("SubjectAlternativeName::build") or n.endswith("X509ReqBuilder::build"):
+                ev.append((m,))
+        if any(e[0] in ("dns", "ip") and e[1] is None for e in ev) or any(e[0] == "attr" and e[1] is None for e in ev):
+            return None
+        rows.append(("%s: dNSName entries" % tag, [e[1] for e in ev if e[0] == "dns"], doms))
+        rows.append(("%s: iPAddress entries" % tag, [e[1] for e in ev if e[0] == "ip"], ips))
+        rows.append(("%s: subject attribute values" % tag, sorted(e[1] for e in ev if e[0] == "attr"), sorted(v for a, v in attrs)))
+        rows.append(("%s: subject installed when attributes exist" % tag, ("set_subject_name",) in ev, bool(attrs)))
+        rows.append(("%s: key of set_pubkey and sign" % tag, [e for e in ev if e[0] in ("set_pubkey", "sign")], [("set_pubkey", True), ("sign", True)]))
+        names_ = [e[0] for e in ev]
+        order_ok = "sign" in names_ and all(names_.index(x) < names_.index("sign") for x in ("build", "add_extensions") if x in names_) and "add_extensions" in names_ \
+            and not [x for x in names_[names_.index("sign") + 1:] if x in ("dns", "ip", "attr", "add_extensions", "set_subject_name", "set_pubkey")]
+        rows.append(("%s: SAN built and added before the request is signed, nothing set afterwards" % tag, order_ok, True))
     return rows
